@@ -530,6 +530,7 @@ func checkSignValidate(c *Ctx, tto *ssa.Function) {
 	checkUnlockHoldOnlyWhenUnlocked(c, "C06-R4")
 	checkExplicitInputsDistinct(c, "C06-R3")
 	checkInputValuesAreCoinAmounts(c, "C06-R4")
+	checkSignerAmountIsIndexedInputValue(c, "C06-R4")
 	checkWatchOnlyAnswerFromKeyMaterial(c, "C06-R4")
 	checkExplicitInputsPassEligibility(c, "C06-R3")
 	checkNoStaleTailAfterInPlaceFilter(c, "C06-R3")
